@@ -973,6 +973,13 @@ class Engine:
                 if nm in self.fns: return self.exec_fn(self.fns[nm], [])
                 if '::' not in nm: break
                 nm = nm.split('::', 1)[1]
+            # promoted / nested const of a trait method:  <Type as Trait>::method::promoted[i]  ->  <impl at ..>::method::promoted[i]
+            rest0 = m.group(3); meth0 = rest0.split('::')[0]
+            for key in ((base(m.group(1)), base(m.group(2)), meth0), (base(m.group(1)), None, meth0)):
+                f = self.impls.get(key)
+                if f is not None:
+                    nm = f.name + rest0[len(meth0):]
+                    if nm in self.fns: return self.exec_fn(self.fns[nm], [])
         m = re.match(r'(.*)<impl (.*?)>::(.*)$', c)
         if m:
             hdr = m.group(2); rest = m.group(3)
@@ -999,6 +1006,10 @@ class Engine:
         # generic path: strip turbofish
         c2 = strip_generics(c)
         if c2 != c and c2 in self.fns: return self.exec_fn(self.fns[c2], [])
+        nm = c2
+        while '::' in nm:      # a free (generic) function's promoted is printed with its module path: prepare::inject_parameters::<I>::promoted[0]
+            nm = nm.split('::', 1)[1]
+            if nm in self.fns and self.fns[nm].kind == 'const': return self.exec_fn(self.fns[nm], [])
         parts = split_path(c2)
         if len(parts) >= 2 and base(parts[-2]) in self.variants and parts[-1] in self.variants[base(parts[-2])]:
             return Adt(base(parts[-2]), parts[-1], [])
